@@ -232,7 +232,7 @@ func e1ModeFor(prop string) E1Mode {
 	case "C04":
 		m.MaxRPCs, m.CancelP, m.Duplex, m.StallP, m.SmallNet, m.Misbehave, m.CloserP = 2, 0.9, 0.6, 0.5, 0.5, 0.2, 0.6
 	case "C05":
-		m.MaxRPCs, m.IOFaults, m.ErrP, m.Misbehave, m.Duplex = 3, true, 0.2, 0.2, 0.2
+		m.MaxRPCs, m.IOFaults, m.ErrP, m.Misbehave, m.Duplex, m.ServeP, m.NoInact, m.MetaP = 3, true, 0.2, 0.2, 0.2, 0, true, 0.3
 	case "C06":
 		m.MaxRPCs, m.Misbehave, m.CancelP, m.ErrP, m.ForceSoftC, m.StallP, m.StallHeals = 4, 0.7, 0.4, 0.3, 1, 0.2, true
 	case "C07":
@@ -242,7 +242,7 @@ func e1ModeFor(prop string) E1Mode {
 	case "C11":
 		m.MaxRPCs, m.MetaP, m.CancelP, m.Misbehave, m.ForceSoftC = 6, 0.7, 0.35, 0.3, -1
 	case "C12":
-		m.MaxRPCs, m.CloseFaults, m.Duplex, m.StallP, m.ServeP = 3, 1.0, 0.3, 0.3, 0.5
+		m.MaxRPCs, m.CloseFaults, m.Duplex, m.StallP, m.ServeP, m.NoInact, m.CloserP = 3, 0, 0.3, 0, 0.5, true, 0.2
 	case "C13":
 		m.MaxRPCs, m.Byz, m.MetaP, m.ErrP = 4, 1.0, 0.4, 0.3
 	case "C18":
